@@ -2,6 +2,7 @@ import SFV.Model.Net
 import SFV.Model.Exec
 import SFV.Model.TfMachine
 import SFV.Model.LoopComb
+import SFV.Gen.StepGuards
 import SFV.Model.Proto
 open SFV SFV.Proto SFV.Net
 
@@ -11,7 +12,7 @@ open SFV SFV.Proto SFV.Net
 `prov <spec>`   -> `<port>:<tag>><port>:<tag>,...` (sorted, duplicates removed) or `-`
 `status <spec>` -> `<node index>=<STATUS>,...`  final status of every node's step without failures
 `exec <spec> fail=<node index>` -> outcome of the executor protocol model (see SFV/Model/Exec.lean)
-`loopcomb <0|1> <port>*` -> `done=..;deadlocked=..;unread=..` of the LoopCombinatorStep reading protocol (LoopComb) on real streams
+`loopcomb <0|1|g> <port>*` (g = as extracted from the source) -> `done=..;deadlocked=..;unread=..` of the LoopCombinatorStep reading protocol (LoopComb) on real streams
 `tfm <port>*`   -> `out=<tags in firing order>;left=<partial groups left>` of the operational grouping loop (TfMachine)
 
 spec words: `n=<nports>` `s:<port>:<val>` `c:<port>` `tf:<fn>:<k>:<ins>/<outs>` `cond:<m>:<r>:<z|d>:<ins>/<outs>`
@@ -135,11 +136,11 @@ def handle : List String → String
       match ws.partition (·.startsWith "fail=") with
       | ([f], rest) =>
           match parseSpec rest, (f.drop 5).toString.toNat? with
-          | some sp, some k => Exec.showOutcome (Exec.runDefault sp (some k))
+          | some sp, some k => Exec.showOutcome (Exec.runDefault sp (some k) Gen.cancelCallsClose)
           | _, _ => "bad-op"
       | ([], rest) =>
           match parseSpec rest with
-          | some sp => Exec.showOutcome (Exec.runDefault sp none)
+          | some sp => Exec.showOutcome (Exec.runDefault sp none Gen.cancelCallsClose)
           | none => "bad-op"
       | _ => "bad-op"
   | "tfm" :: ports =>
@@ -164,7 +165,7 @@ def handle : List String → String
         if w = "-" then some [] else (w.splitOn ",").mapM parseTok
       match ports.mapM parsePort with
       | some streams =>
-          let fixed := fx == "1"
+          let fixed := if fx == "g" then Gen.loopStopsAfterFailure else fx == "1"
           let n := streams.length
           let fuel := (streams.map List.length).foldl (· + ·) 0 + 1
           let rec go (fuel : Nat) (s : LoopComb.St) : LoopComb.St :=
